@@ -1075,6 +1075,23 @@ pub fn format_type_assertion(
     TypeAssertion::new(cast_to).with_assertion_op(assertion_op)
 }
 
+/// Formats a type assertion which has to start a new line, as the expression in front of it ends with a single line comment
+pub fn format_type_assertion_on_new_line(
+    ctx: &Context,
+    type_assertion: &TypeAssertion,
+    shape: Shape,
+) -> TypeAssertion {
+    let shape = shape.reset().increment_additional_indent();
+    let assertion_op = fmt_symbol!(ctx, type_assertion.assertion_op(), ":: ", shape)
+        .update_leading_trivia(FormatTriviaType::Append(vec![
+            create_newline_trivia(ctx),
+            create_indent_trivia(ctx, shape),
+        ]));
+    let cast_to = format_type_info(ctx, type_assertion.cast_to(), shape + 3); // 3 = ":: "
+
+    TypeAssertion::new(cast_to).with_assertion_op(assertion_op)
+}
+
 /// Checks a type info to see if it should be hanged due to comments being present
 fn should_hang_type(type_info: &TypeInfo, comment_search: CommentSearch) -> bool {
     // Only hang if its a binary type info, since it doesn't matter for unary types
